@@ -907,3 +907,41 @@ def c19_split_profile(tier, rng):
                                  "required": "present iff matched", "replay_call": "contracts.c_profiles:replay_split_profile"})
     return {"obligations": obl, "discharged": dis, "violations": viol, "cases": obl, "exhaustive": True,
             "bound": "all pairs of disjoint interval lists over 1..%d x minimal overlap 1..3" % u, "samples": [{"known": [(1, 3), (5, 5)], "read": [(2, 2), (4, 5)], "min_overlap": 2}]}
+
+
+# ---- the three profile constructors receive the read's blocks and its two tail positions, each in its own place --------------------------------------
+@finite("C13.profile_call_wiring", ["C13", "C11"], note="the real CombinedProfileConstructor.construct_profiles with its three constructors replaced by recorders, "
+        "with and without --count_exons: the intron, exon and split-exon constructors each receive the read's blocks, the polyA position as polyA "
+        "position and the polyT position as polyT position")
+def c13_profile_call_wiring(tier, rng):
+    import types
+    lrp = native.repo_import("src/long_read_profiles.py")
+    obl = dis = 0
+    viol = []
+    for count_exons in (False, True):
+        for pa, pt in ((111, -1), (-1, 222), (111, 222), (-1, -1)):
+            calls = {}
+
+            def rec(name):
+                return lambda blocks, polya_position=-1, polyt_position=-1: calls.__setitem__(name, (list(blocks), polya_position, polyt_position)) or name
+            c = lrp.CombinedProfileConstructor.__new__(lrp.CombinedProfileConstructor)
+            c.params = types.SimpleNamespace(count_exons=count_exons)
+            c.gene_info = None
+            c.intron_profile_constructor = types.SimpleNamespace(construct_intron_profile=rec("intron"))
+            c.exon_profile_constructor = types.SimpleNamespace(construct_exon_profile=rec("exon"))
+            c.split_exon_profile_constructor = types.SimpleNamespace(construct_profile=rec("split_exon"))
+            blocks = [(100, 200), (300, 400)]
+            info = types.SimpleNamespace(external_polya_pos=pa, external_polyt_pos=pt, internal_polya_pos=-7, internal_polyt_pos=-9)
+            c.construct_profiles(blocks, info, [])
+            for name in ("intron", "split_exon") + (("exon",) if count_exons else ()):
+                obl += 1
+                if calls.get(name) == (blocks, pa, pt):
+                    dis += 1
+                else:
+                    viol.append({"obligation": "C13.profile_call_wiring.%s.%s" % (name, "count_exons" if count_exons else "plain"),
+                                 "inputs": {"polya": pa, "polyt": pt, "count_exons": count_exons}, "observed": str(calls.get(name)),
+                                 "required": str((blocks, pa, pt))})
+            if not count_exons and "exon" in calls:
+                viol.append({"obligation": "C13.profile_call_wiring.exon.unrequested", "inputs": {"count_exons": False}, "observed": "exon profile built", "required": "not built"})
+    return {"obligations": obl, "discharged": dis, "violations": viol[:4], "cases": obl, "exhaustive": True,
+            "bound": "2 settings x 4 tail position pairs x 2-3 constructors", "samples": [{"polya": 111, "polyt": 222}]}
